@@ -208,6 +208,7 @@ def run(ctx):
 
     # ---------- allocation histories (monitor on the implementation + model machine) ----------
     history_runs(ctx, CNF, OPB)
+    constructor_runs(ctx, CNF, OPB)
 
 
 def history_runs(ctx, CNF, OPB):
@@ -241,10 +242,14 @@ def history_runs(ctx, CNF, OPB):
                     # several clauses / constraints at once, with the default arguments (docs/buildcnf.rst builds formulas this way)
                     cs = [[rng.choice([1, -1]) * rng.randint(1, before + 3) for _ in range(rng.randint(1, 3))] for _ in range(rng.randint(1, 3))]
                     how = rng.choice(['add_clauses_from', 'add_clauses_from', 'add_constraints_from'] if fc is OPB else ['add_clauses_from'])
+                    shape = rng.choice(['list', 'list', 'generator', 'tuple', 'iterator'])       # any iterable of clauses is accepted
+                    wrap = {'list': list, 'generator': lambda x: (c for c in x), 'tuple': lambda x: tuple(tuple(c) for c in x), 'iterator': iter}[shape]
+                    ctx.tally('history op: bulk argument given as', shape)
                     if how == 'add_clauses_from':
-                        F.add_clauses_from(cs)
+                        F.add_clauses_from(wrap(cs))
                     else:
-                        F.add_constraints_from([[(1, l) for l in c] + ['>=', 1] for c in cs])
+                        cons = [[(1, l) for l in c] + ['>=', 1] for c in cs]       # each constraint stays a list; the collection takes the shape
+                        F.add_constraints_from({'tuple': tuple}.get(shape, wrap)(cons))
                     ctx.tally('history op', 'bulk ' + how)
                     top = max(abs(l) for c in cs for l in c)
                     if F.number_of_variables() < top:
@@ -388,3 +393,49 @@ def history_runs(ctx, CNF, OPB):
             if rep != n:
                 ctx.violation('correspondence', 'number of variables after an allocation history differs from the model machine (%s vs %s)' % (n, rep),
                               dict(input=dict(ops=ops), theorem='C10_history_invariant'), False, site='history-model', cls='numvar')
+
+
+def constructor_runs(ctx, CNF, OPB):
+    """CNF(clauses): the constructor is one more way to insert clauses.  Oracle: the documented insertion path, add_clause clause by
+    clause on an empty formula - the constructor must refuse what add_clause refuses (a literal 0 ...), and otherwise hold the same
+    clauses with the same number of variables; on integer input every literal is then in range"""
+    rng = ctx.rng
+    for i in range(60 if ctx.tier == 'quick' else 600):
+        n = rng.randint(1, 8)
+        cs = [[rng.choice([1, -1]) * rng.randint(1, n) for _ in range(rng.randint(0, 4))] for _ in range(rng.randint(0, 5))]
+        bad = 'none'
+        if rng.random() < 0.35 and cs:
+            j = rng.randrange(len(cs))
+            bad = rng.choice([0, 0, 0, '1', None])
+            cs[j] = cs[j] + [bad] if rng.random() < 0.5 else [bad] + cs[j]
+        shape = rng.choice(['list', 'generator', 'tuple'])
+        arg = {'list': lambda: [list(c) for c in cs], 'generator': lambda: (list(c) for c in cs), 'tuple': lambda: tuple(tuple(c) for c in cs)}[shape]()
+        r = outcome(lambda: CNF(arg))
+
+        def by_add_clause():
+            G = CNF()
+            for c in cs:
+                G.add_clause(list(c))
+            return G
+        o = outcome(by_add_clause)
+        ctx.count('constructor', ('ctor', str(cs), shape), nontrivial=bool(cs), sample=dict(clauses=str(cs), given_as=shape))
+        ctx.tally('constructor argument', shape + (' with the invalid literal %r' % (bad,) if bad != 'none' else ''))
+        descr = dict(call='CNF(clauses)', clauses=str(cs), given_as=shape)
+        if o[0] != 'ok':
+            if r[0] == 'ok':
+                ctx.violation('counterexample', 'CNF(clauses) accepts clauses that add_clause refuses (%s): the formula holds a literal that is not a non-zero integer' % o[1],
+                              dict(input=descr, stored=str([list(c) for c in r[1]])), True, site='constructor', cls='invalid-literal-stored')
+            continue
+        if r[0] != 'ok':
+            ctx.violation('counterexample', 'CNF(clauses) raised %s on clauses that add_clause accepts one by one' % r[1], dict(input=descr, error=list(r[1:])), True,
+                          site='constructor', cls='raises-' + str(r[1]))
+            continue
+        F, G = r[1], o[1]
+        stored = [list(c) for c in F]
+        top = max([abs(l) for c in stored for l in c] + [0])
+        if stored != [list(c) for c in G] or F.number_of_variables() != G.number_of_variables():
+            ctx.violation('counterexample', 'CNF(clauses) differs from inserting the same clauses with add_clause (%d vs %d variables)' % (F.number_of_variables(), G.number_of_variables()),
+                          dict(input=descr, stored=str(stored)), True, site='constructor', cls='clauses-or-numvar')
+        elif F.number_of_variables() < top:
+            ctx.violation('counterexample', 'CNF(clauses) has %d variables but mentions variable %d' % (F.number_of_variables(), top), dict(input=descr), True,
+                          site='constructor', cls='numvar')
